@@ -172,7 +172,7 @@ func TestDrive_C15(t *testing.T) {
 	}
 
 	// 1. sync vs async on the same scenario, and Cancel() swept over the run's own event instants
-	pf := execProfile{name: "C15", kinds: []string{"Retry", "Retry", "Fallback", "Breaker", "Bulkhead", "Limiter", "Cache"}, maxDepth: 3, mustHave: "Retry", coopPct: 60, maxReqs: 1}
+	pf := execProfile{name: "C15", kinds: []string{"Retry", "Retry", "Fallback", "Breaker", "Bulkhead", "Limiter", "Cache"}, hedgePct: 20, maxDepth: 3, mustHave: "Retry", coopPct: 60, maxReqs: 1}
 	n := 90
 	if thorough {
 		n = 3000
